@@ -24,7 +24,9 @@ import (
 	"time"
 )
 
-const verifDir = "/verif"
+// verifDir is the directory of the harness: /verif, or a snapshot of it (the
+// check script changes into its own directory before starting the driver).
+var verifDir = "/verif"
 
 // repoDir is /repo. VERIF_REPO points the driver at a scratch copy instead (to
 // try a seeded change or run a long sweep without touching /repo); evidence and
@@ -36,6 +38,11 @@ var (
 )
 
 func init() {
+	if wd, err := os.Getwd(); err == nil {
+		if _, err := os.Stat(filepath.Join(wd, "cmd", "driver", "main.go")); err == nil {
+			verifDir, outDir = wd, wd
+		}
+	}
 	if d := os.Getenv("VERIF_REPO"); d != "" && d != "/repo" {
 		repoDir, altRepo = filepath.Clean(d), true
 		outDir = os.Getenv("VERIF_OUT")
